@@ -2,6 +2,7 @@ package checks
 
 import (
 	"fmt"
+	"github.com/go-openapi/validate"
 	"strings"
 
 	"github.com/go-openapi/spec"
@@ -113,6 +114,14 @@ func c01disagree(schemaText string, instText string) string {
 	if o1.Valid != want {
 		return fmt.Sprintf("library valid=%v, draft-4 valid=%v", o1.Valid, want)
 	}
+	// the public option that switches the schemata bookkeeping off must not touch the verdict
+	o3, _ := validatorSpec(c.spec(), inst, "", curRegistry, validate.WithSkipSchemataResult(true))
+	if o3.Panic != "" {
+		return "validator object panics: " + o3.Panic
+	}
+	if o3.Valid != o1.Valid {
+		return fmt.Sprintf("entry points differ: one-shot valid=%v, validator object with WithSkipSchemataResult valid=%v", o1.Valid, o3.Valid)
+	}
 	return ""
 }
 
@@ -183,11 +192,11 @@ func c01(c *hx.Ctx) int {
 		"distinct_nontrivial": rep.Counters["ref_invalid_pairs"],
 		"rule": "all conjunctions of <= " + fmt.Sprint(sizes[len(sizes)-1]) + " schema atoms (" + fmt.Sprint(len(gen.Atoms())) + " atoms, slots filled from leaf schemas) x " + fmt.Sprint(len(gen.Instances)) +
 			" instances, each through AgainstSchema and NewSchemaValidator(...).Validate on a non-reset pool under two map-order policies; a pair is non-trivial when the reference verdict is invalid; every pair is distinct by construction",
-		"schemas":                    rep.Counters["schemas"],
-		"reference_conformance_ok":   agree,
-		"reference_conformance_skip": skipped,
-		"pairs_outside_reference":    rep.Counters["ref_skipped"],
-		"disagreeing_pairs":          rep.Counters["disagreements"],
+		"schemas":                        rep.Counters["schemas"],
+		"reference_conformance_ok":       agree,
+		"reference_conformance_skip":     skipped,
+		"pairs_outside_reference":        rep.Counters["ref_skipped"],
+		"disagreeing_pairs":              rep.Counters["disagreements"],
 		"distinct_minimal_disagreements": len(rep.Violations),
 	}
 	return hx.Finish(c, "exploration", rep, cov, []string{
